@@ -103,7 +103,7 @@ def rle_text(behs):
     return "\n".join(out) + "\n"
 
 
-def rle_leg(rep, srcdir, tier, collect_into=None):
+def rle_leg(rep, srcdir, tier, collect_into=None, mini=False):
     """Rle.tla (machine = greedy rule, checked by TLC) replayed through collect()."""
     exe = vlib.build_harness("replay_rle", "replay_rle.c", srcdir, extra=[os.path.join(srcdir, "crctab.c")])
     run = lambda x, n: "[j \\in 1..%d |-> %d]" % (n, x)
@@ -117,6 +117,8 @@ def rle_leg(rep, srcdir, tier, collect_into=None):
     if tier == "thorough":
         cfgs += [dict(defs=dict(Inputs="UNION {[1..n -> {0, 1}] : n \\in 9..10}", Caps="1..8"), MaxCalls=3),
                  dict(defs=dict(Inputs="UNION {[1..n -> {0, 1}] : n \\in 0..7}", Caps="1..6"), MaxCalls=4)]
+    if mini:                                   # the reduced leg other checks (C01) include
+        cfgs = [dict(defs=dict(Inputs="UNION {[1..n -> {0, 1}] : n \\in 0..7}", Caps="1..6"), MaxCalls=3)]
     fails = []
     for i, c in enumerate(cfgs):
         behs, r = gen("Rle", dict(MaxCalls=c["MaxCalls"]), ["Greedy", "Export"], "rle%d" % i, defs=c["defs"], timeout=1500)
@@ -212,4 +214,94 @@ def scan_leg(rep, srcdir, tier):
                 fails.append(("scan() deviates from Scan.tla: " + why, b))
         if behs:
             rep.sample({"scan_stimulus": {k: behs[len(behs) // 2][k] for k in ("start", "pre", "skip", "chain")}})
+    return fails
+
+
+# ------------------------------------------------------------------ Parser.tla
+def _tla_shape(level0, streams, tail):
+    ss = ", ".join("[level |-> %d, blocks |-> <<%s>>]" % (lv, ", ".join("[crc |-> <<%d, %d>>, pay |-> %d]" % (c[0], c[1], pay) for c, pay in blocks))
+                   for lv, blocks in streams)
+    return "[level0 |-> %d, streams |-> <<%s>>, tail |-> <<%s>>]" % (level0, ss, ", ".join(str(b) for b in tail))
+
+
+def parser_shapes(tier):
+    bits16 = lambda v: [(v >> (15 - i)) & 1 for i in range(16)]
+    crcs = [(4660, 22136), (65535, 65535), (0, 1), (32768, 0), (43690, 21845)]
+    shapes = []
+    pays = range(0, 32) if tier == "thorough" else (0, 1, 5, 8, 13, 15, 16, 17, 24, 31)
+    for i, pay in enumerate(pays):                      # the trailer at every bit offset mod 32
+        shapes.append(_tla_shape(9, [(9, [(crcs[i % 5], pay)])], []))
+    tails = [[], [0] * 8, bits16(0x1234), bits16(0x425A) + bits16(0x6830), bits16(0x425A) + bits16(0x683A), [1, 0, 1, 1, 0], bits16(0x425A)]
+    for i, t in enumerate(tails):
+        shapes.append(_tla_shape(5, [(5, [(crcs[0], 5), (crcs[1], 11)]), (3, [(crcs[2], 7 + i)])], t))
+    shapes.append(_tla_shape(1, [(1, []), (2, [(crcs[3], 3)])], []))                        # an empty stream first
+    shapes.append(_tla_shape(9, [(9, [(crcs[4], 2)]), (1, []), (7, [(crcs[0], 30), (crcs[2], 1)])], []))
+    return shapes
+
+
+def parse_leg(rep, srcdir, tier):
+    """Parser.tla: Machine = Grammar for every stimulus (TLC), every stimulus replayed through the real
+    parse() under several chunkings; returns [(why, stimulus)]."""
+    exe = vlib.build_harness("replay_parse", "replay_parse.c", srcdir)
+    shapes = parser_shapes(tier)
+    fails = []
+    # TLC holds every stimulus of a run in its initial-state set: a few shapes per run
+    per = 3
+    groups = [shapes[i:i + per] for i in range(0, len(shapes), per)]
+
+    def go(ig):
+        i, g = ig
+        return gen("Parser", {}, ["MachineIsGrammar", "ValidAccepted", "Export"], "parser%d" % i, timeout=1800, workers=2,
+                   defs=dict(Shapes="{%s}" % ", ".join(g)), xmx="4g")
+    from concurrent.futures import ThreadPoolExecutor
+    with ThreadPoolExecutor(max_workers=6) as ex:
+        results = list(ex.map(go, list(enumerate(groups))))
+    behs = []
+    for b, r in results:
+        if b is None:
+            raise vlib.Infra("Parser.tla: machine and grammar disagree or TLC failed:\n%s" % r.text[-2000:])
+        rep.add("states", r.distinct)
+        rep.add("transitions", r.generated)
+        behs += b
+    lines, meta = [], []
+    for b in behs:
+        n16 = len(b["words"])
+        nw = n16 // 2
+        plans = {(): "whole", tuple(range(1, nw)): "every word", tuple(range(2, nw, 2)): "every 2nd word", tuple(range(1, nw, 2)): "odd words"}
+        for e in b["ends"]:                                 # a chunk that ends exactly where a stream ends (and next to it)
+            for k in (e // 32, (e + 31) // 32, e // 32 + 1):
+                if 0 < k < nw:
+                    plans[(k,)] = "chunk ends at word %d (stream end at bit %d)" % (k, e)
+        for plan, pname in plans.items():
+            lines.append("%d %s %d %d %s %d %s" % (n16, " ".join("%x" % w for w in b["words"]), b["level0"], len(b["skips"]),
+                                                   " ".join(map(str, b["skips"])), len(plan), " ".join(map(str, plan))))
+            meta.append((b, pname))
+    p = subprocess.run([exe], input="\n".join(lines) + "\n", capture_output=True, text=True, timeout=1800)
+    out = [l.split()[2:] for l in p.stdout.splitlines() if l.startswith("R ")]
+    if p.returncode != 0 or len(out) != len(lines):
+        # a crash of parse() itself (assert) on some stimulus: find it
+        if p.returncode < 0 and len(out) < len(lines):
+            b, pname = meta[len(out)]
+            return [("parse() crashed (signal %d) on a %s stimulus, %s" % (-p.returncode, b["mut"], pname), dict(stimulus=b, chunks=pname))]
+        raise vlib.Infra("replay_parse failed: rc=%s %s" % (p.returncode, p.stderr[-500:]))
+    rep.add("parser_stimuli", len(behs))
+    rep.add("parser_replays", len(lines))
+    rep.add("traces_validated_against_impl", len(lines))
+    for (b, pname), got in zip(meta, out):
+        want = []
+        for r in b["res"]:
+            if r["r"] == "OK":
+                want.append("OK:%d:%d:%d" % (r["crc"][0], r["crc"][1], r["level"]))
+            elif r["r"] == "FINISH":
+                want.append("FINISH:%d" % r["garbage"])
+            elif r["r"] == "PAYLOAD_EOF":
+                want.append("PAYLOAD_EOF")
+            else:
+                want.append("ERR:" + r["r"])
+        if got != want:
+            fails.append(("parse() deviates from Parser.tla (%s of a shape, %s): returned %s, specification %s" %
+                          (b["mut"] if b["mut"] == "none" else "%s at bit %d" % (b["mut"], b["at"]), pname, " ".join(got), " ".join(want)),
+                          dict(stimulus={k: b[k] for k in ("words", "level0", "skips", "mut", "at")}, chunks=pname, got=got, want=want)))
+            if len(fails) >= 6:
+                break
     return fails
